@@ -653,5 +653,5 @@ pub fn run_c12(ctx: &mut Ctx) {
     }
 }
 pub fn run_c13(ctx: &mut Ctx) {
-    run_vec(ctx, "C13", 220_000, 1_200_000);
+    run_vec(ctx, "C13", 220_000, 3_000_000);
 }
